@@ -58,6 +58,8 @@ macro_rules! counters {
     };
 }
 counters!(
+    emit_frames_captured,
+    emit_aligned_frames_borrowed,
     msg_cases,
     route_cases,
     wrong_cases,
@@ -1167,6 +1169,151 @@ impl ScalarVisitor for TcpSweep<'_> {
     }
 }
 
+// ---------------------------------------------------------------- part emit
+// The in-memory sweeps above judge frames built the way the clients build them. This part
+// closes the gap to the real clients: the frame each real client helper actually puts on
+// the wire is captured by a raw TCP peer and judged by the same clauses (elements arrive
+// bit-exact; an aligned-form frame that lands on an aligned base is borrowed).
+
+struct EmitSweep<'a> {
+    w: &'a mut W,
+    rt: &'a tokio::runtime::Runtime,
+}
+
+/// Raw peer: accepts one connection, captures every request frame, answers each with an
+/// error response carrying the request id so the call returns at once.
+fn capture_peer() -> (std::net::SocketAddr, std::sync::mpsc::Receiver<Vec<u8>>) {
+    use std::io::{Read, Write};
+    let l = std::net::TcpListener::bind("127.0.0.1:0").expect("bind");
+    let addr = l.local_addr().expect("addr");
+    let (tx, rx) = std::sync::mpsc::channel();
+    std::thread::spawn(move || {
+        let Ok((mut s, _)) = l.accept() else { return };
+        let mut buf: Vec<u8> = Vec::new();
+        let mut chunk = [0u8; 65536];
+        loop {
+            loop {
+                match crate::frames::parse_one(&buf) {
+                    Ok(Some((f, n))) => {
+                        let frame: Vec<u8> = buf.drain(..n).collect();
+                        let mut h = crate::frames::Hdr::consistent(0, 0);
+                        h.version = 1;
+                        h.id = f.h.id;
+                        h.ec = 6;
+                        let _ = s.write_all(&h.encode());
+                        if tx.send(frame).is_err() {
+                            return;
+                        }
+                    }
+                    Ok(None) => break,
+                    Err(_) => return,
+                }
+            }
+            match s.read(&mut chunk) {
+                Ok(0) | Err(_) => return,
+                Ok(n) => buf.extend_from_slice(&chunk[..n]),
+            }
+        }
+    });
+    (addr, rx)
+}
+
+impl ScalarVisitor for EmitSweep<'_> {
+    fn visit<T: Elem>(&mut self) {
+        let w = &mut *self.w;
+        let rt = self.rt;
+        let align = std::mem::align_of::<T>();
+        let t = std::time::Duration::from_secs(10);
+        let paths: Vec<String> = (1..=24usize).map(|q| format!("/{}", "e".repeat(q - 1))).collect();
+        let envr = env::<T>(&paths);
+        let mut backing: Vec<u64> = Vec::new();
+        for real in ["Client", "AsyncClient"] {
+            let (addr, rx) = capture_peer();
+            let client = if real == "Client" { Some(repe::Client::connect(addr).expect("connect capture peer")) } else { None };
+            let aclient = if real == "AsyncClient" { Some(rt.block_on(repe::AsyncClient::connect(addr)).expect("connect capture peer")) } else { None };
+            for p in &paths {
+                for n in [1usize, 5] {
+                    let v: Vec<T> = make(n, n);
+                    for form in 0..3usize {
+                        let _ = match (&client, &aclient) {
+                            (Some(c), _) => match form {
+                                0 => c.call_typed_slice_with_timeout::<_, T, T>(p, &v, t).map(|_| ()),
+                                1 => c.call_typed_slice_aligned_with_timeout::<_, T, T>(p, &v, t).map(|_| ()),
+                                _ => c.call_typed_beve_with_timeout::<_, _, Vec<T>>(p, &v, t).map(|_| ()),
+                            },
+                            (_, Some(c)) => rt.block_on(async {
+                                match form {
+                                    0 => c.call_typed_slice_with_timeout::<_, T, T>(p, &v, t).await.map(|_| ()),
+                                    1 => c.call_typed_slice_aligned_with_timeout::<_, T, T>(p, &v, t).await.map(|_| ()),
+                                    _ => c.call_typed_beve_with_timeout::<_, _, Vec<T>>(p, &v, t).await.map(|_| ()),
+                                }
+                            }),
+                            _ => unreachable!(),
+                        };
+                        let case = json!({"part": "emit", "client": real, "form": CLIENTS[form], "type": T::NAME, "len": n, "q": p.len()});
+                        let Ok(frame) = rx.recv_timeout(t) else {
+                            w.machinery.push(format!("no frame captured from {real} ({case})"));
+                            return;
+                        };
+                        w.inc(C::emit_frames_captured);
+                        w.inc(C::impl_calls);
+                        // judge the captured frame on the borrowing route, at an aligned base
+                        let words = frame.len() / 8 + 2;
+                        if backing.len() < words {
+                            backing.resize(words, 0);
+                        }
+                        // SAFETY: `backing` is 8-aligned and at least `frame.len()` bytes long
+                        let bytes = unsafe { std::slice::from_raw_parts_mut(backing.as_mut_ptr() as *mut u8, backing.len() * 8) };
+                        bytes[..frame.len()].copy_from_slice(&frame);
+                        let range = (bytes.as_ptr() as usize, bytes.as_ptr() as usize + frame.len());
+                        let Ok(view) = MessageView::from_slice(&bytes[..frame.len()]) else {
+                            w.fail("C08:emit:client-frame-malformed".into(), || format!("{real} emitted a frame that does not parse ({case})"), &case);
+                            continue;
+                        };
+                        let h = envr.routers[1].get(p).expect("route");
+                        OBS.with(|o| o.set((0, 0, 0)));
+                        let res = h.handle_view(&view, &CallContext::detached(p));
+                        let (ptr, _, calls) = OBS.with(|o| o.get());
+                        match outcome(res) {
+                            Outcome::Response(resp) if resp.header.ec == 0 => {
+                                let back: Result<Vec<T>, _> = resp.decode_typed_slice();
+                                let same = back.as_ref().map(|b| images(b) == images(&v)).unwrap_or(false);
+                                if !same || calls != 1 {
+                                    w.fail(format!("C08:emit:{}:elements", CLIENTS[form]), || format!("{real}: the frame emitted for {}[{n}] did not reach the borrowing route bit-exact ({case})", T::NAME), &case);
+                                }
+                                if form == 1 {
+                                    let in_buf = ptr >= range.0 && ptr < range.1;
+                                    if in_buf {
+                                        w.inc(C::emit_aligned_frames_borrowed);
+                                    } else if align <= 8 {
+                                        w.fail(
+                                            "C08:emit:aligned-frame-not-borrowed".into(),
+                                            || format!("{real}::call_typed_slice_aligned: the emitted frame for {}[{n}] with a {}-byte path, placed on an 8-aligned base, was copied instead of borrowed (padding does not account for the frame offset) ({case})", T::NAME, p.len()),
+                                            &case,
+                                        );
+                                    }
+                                }
+                            }
+                            _ => {
+                                // the generic form of a slice route may be refused only for the known empty-vector class; n > 0 here
+                                w.fail(format!("C08:emit:{}:rejected", CLIENTS[form]), || format!("{real}: the borrowing route rejected the emitted frame ({case})"), &case);
+                            }
+                        }
+                    }
+                }
+            }
+        }
+    }
+}
+
+fn images<T: Elem>(v: &[T]) -> Vec<u8> {
+    let mut out = Vec::new();
+    for x in v {
+        x.le(&mut out);
+    }
+    out
+}
+
 // ---------------------------------------------------------------- enumeration
 
 struct Bounds {
@@ -1351,6 +1498,10 @@ pub fn run(tier: Tier) -> ! {
     {
         let rt = tokio::runtime::Builder::new_multi_thread().worker_threads(2).enable_all().build().expect("runtime");
         let mut w = W::new();
+        {
+            let mut emit = EmitSweep { w: &mut w, rt: &rt };
+            visit_all(&mut emit);
+        }
         let mut sweep = TcpSweep { w: &mut w, rt: &rt, only: None };
         let tcp_types: &[&'static str] = tier.pick(&["f64", "u8", "i16", "f16"][..], &SCALARS[..]);
         for name in tcp_types {
@@ -1409,6 +1560,8 @@ pub fn run(tier: Tier) -> ! {
             C::wrong_format_rejected_slice_route,
             C::tcp_ok_identical,
             C::tcp_rejected,
+            C::emit_frames_captured,
+            C::emit_aligned_frames_borrowed,
         ];
         for n in need {
             if c(n) == 0 {
